@@ -153,7 +153,18 @@ func genC07(seed uint64) *Plan {
 		"fail_write": 1, "dispose": 1, "raw_garbage": 2, "reconnect": 3}
 	pr.ReconnectProb = 0.6
 	pr.BigGapProb = 0.15
+	pr.AddPathRXProb = 0.4
+	pr.IneligibleProb = 0.15 // stored but hidden paths next to eligible ones: the teardown has to step over them
 	g := newGen("C07", seed, pr)
+	if g.r.Chance(0.4) {
+		// sessions with their own local AS: several ASNs contribute to loop detection in one VRF, each
+		// teardown has to take exactly its own one back
+		for i := range g.plan.Peers {
+			if pc := &g.plan.Peers[i]; pc.AS != g.plan.DUT.LocalAS && g.r.Chance(0.6) {
+				pc.LocalAS = 65010 + uint32(i)
+			}
+		}
+	}
 	g.connectAll()
 	g.workload()
 	return g.plan
